@@ -18,22 +18,22 @@ CLAIMS = {
                 tech='Verus on extracted into_buffer tail + Kani harnesses on CssBuf',
                 ref='DESIGN.md §5 C07'),
     'C11': dict(cat='proof',
-                text='Unit::scale_to is checked against the CSS Values ratio table for every ordered pair of the 28 named units (complete, one named assertion per pair), and lifted through UnitSet::scale_to_unit, Numeric::partial_cmp/as_unit and Operator::eval Plus/Minus (all unit pairs, sample magnitudes: bounded); UnitSet Mul/Div exponent algebra bounded to 2 entries.',
-                note='Known findings: em/ex/ch, vmin/vmax, %/fr are convertible in rsass (10 named pairs). simplify()\'s scale factor (powi) and math.div are not covered.',
+                text='Unit::scale_to is checked against the CSS Values ratio table for every ordered pair of the 28 named units (complete, one named assertion per pair), and lifted through UnitSet::scale_to_unit and Numeric::partial_cmp/as_unit (representative unit pairs, probe magnitudes: bounded); UnitSet Mul/Div exponent algebra bounded to 2 entries. The +/- arms of Operator::eval are thorough-tier attempts only (CBMC has never finished them) and are not counted.',
+                note='Known findings: em/ex/ch, vmin/vmax, %/fr are convertible in rsass (10 named pairs). simplify()\'s scale factor (powi), math.div and Operator::eval are not covered.',
                 tech='Kani proof harnesses, exhaustive over unit pairs, oracle = CSS ratio table',
                 ref='DESIGN.md §5 C11'),
     'C12': dict(cat='proof',
-                text='Symmetry of ==, antisymmetry of partial_cmp, reflexivity except NaN and trichotomy are discharged for ALL f64 payloads on Number, Numeric (same unit / unitless), cmp_chan, Rgba, Hsla-origin Color; css::Value::eq symmetry on one representative per constructor (bounded).',
-                note='Strings with different quote kinds (CssString::unquote) and nested lists/maps are out of reach; cross-unit symmetry only on probe magnitudes.',
+                text='Symmetry of ==, antisymmetry of partial_cmp and reflexivity except NaN are discharged for ALL f64 payloads on Number, Numeric (same unit / unitless, incl. trichotomy), cmp_chan, Rgba; reflexivity and NaN-totality for Hsla-origin Color; css::Value::eq symmetry on one representative per constructor (bounded).',
+                note='Strings with different quote kinds (CssString::unquote) and nested lists/maps are out of reach; cross-unit symmetry only on probe magnitudes. Number trichotomy, Hsla cmp antisymmetry, color==color through css::Value and the comparison arms of Operator::eval exceed the quick budget: thorough-tier attempts, never counted as proved.',
                 tech='Kani proof harnesses over full-domain symbolic f64',
                 ref='DESIGN.md §5 C12'),
     'C13': dict(cat='other',
-                text='OrderMap insert/get/get_mut/remove/contains_key and == are checked against an association-list view keyed by a non-trivial == (whole-view postconditions incl. "other entries unchanged"), for maps of at most 3 entries (bounded model checking of the real generic code); OrderMap::get additionally by Verus for maps of any size.',
+                text='OrderMap insert/get/get_mut/remove/contains_key and == are checked against an association-list view keyed by a non-trivial == (whole-view postconditions incl. "other entries unchanged"), for maps of at most 3 entries (bounded model checking of the real generic code; remove and == are instantiated per concrete size / key permutation).',
                 note='map.* Sass functions are closures in the function table (unreachable); duplicate-key error is in the evaluator.',
                 tech='Kani bounded proof harnesses + Verus on extracted OrderMap::get',
                 ref='DESIGN.md §5 C13'),
     'C14': dict(cat='other',
-                text='css::Value::is_true (false exactly for false/null) and the value selection of Operator::eval And/Or, for one representative operand per value kind (bounded).',
+                text='css::Value::is_true (false exactly for false/null; 0, NaN, empty string/list/map truthy) for one representative payload per value constructor (bounded). The And/Or value selection of Operator::eval is a thorough-tier attempt only (CBMC has never finished it) and is not counted.',
                 note='The `not` arm and short-circuit evaluation live in the evaluator, which Kani cannot compile: NOT covered (the known `not null` defect is outside this check).',
                 tech='Kani proof harnesses per value constructor',
                 ref='DESIGN.md §5 C14'),
@@ -48,18 +48,18 @@ CLAIMS = {
                 tech='Kani bounded proof harnesses',
                 ref='DESIGN.md §5 C22'),
     'C28': dict(cat='proof',
-                text='index_of (1..n and -n..-1 normalisation, result < len) for all f64 and all lengths up to 2^40 (complete); get_list shape for lists of at most 2 elements (bounded).',
+                text='index_of (1..n and -n..-1 normalisation, result < len) for all f64 and all lengths up to 2^40, and Number::into_integer (complete); get_list shape is a thorough-tier attempt only (exceeds 300 s) and is not counted.',
                 note='nth/set-nth/join/append/zip/index are closures in the function table: unreachable; error text is stubbed (error presence is checked).',
                 tech='Kani proof harness with fmt::format stubbed',
                 ref='DESIGN.md §5 C28'),
     'C31': dict(cat='proof',
-                text='Channel-range postconditions of Rgba::new/from_rgb/from_rgba/set_alpha, cap, Hsla::new, Hwba::new, Color::set_alpha and of the rgb<->hsl<->hwb conversions, max_min_largest, same-channels => == (all f64, complete). deg_mod is proved against the IEEE fmod axioms on extracted text; its callers use its contract.',
-                note='f64 % is not modelled by CBMC: deg_mod\'s callers assume its contract; exact rgb->hsl->rgb round trip is attempted in the thorough tier only and reported as not proved on timeout. NaN inputs are excluded from range obligations.',
+                text='Channel-range postconditions of Rgba::new/from_rgb/from_rgba/set_alpha, cap, Hsla::new, Hwba::new, Color::set_alpha and of the rgb<->hsl<->hwb conversions, max_min_largest, same-channels => == (all f64, complete). deg_mod itself is NOT verified: its callers are checked against an assumed contract of it.',
+                note='f64 % is not modelled by CBMC and Verus has no float arithmetic: deg_mod\'s contract is an unchecked assumption (listed in evidence); exact rgb->hsl->rgb round trip is attempted in the thorough tier only and reported as not proved on timeout. NaN inputs are excluded from range obligations.',
                 tech='Kani function contracts + proof harnesses over all f64',
                 ref='DESIGN.md §5 C31'),
     'C32': dict(cat='proof',
-                text='Laws of the Color methods the Sass functions call: invert∘invert = id (rgb, hsl), invert weight 0, rotate_hue(360) = id, rotate_hue(d) then (-d), alpha untouched, set_alpha clamping (all f64 in range).',
-                note='The Sass-level functions (mix, lighten, scale, …) are closures in the function table: unreachable.',
+                text='Laws of the Color methods the Sass functions call: invert∘invert = id (rgb, hsl), invert weight 0, rotate_hue(360) = id, rotate_hue(d) then (-d) for |d| <= 360, alpha untouched, set_alpha clamping (all f64 in range).',
+                note='The Sass-level functions (mix, lighten, scale, …) are closures in the function table: unreachable. Hue laws rest on the assumed (unchecked) contract of deg_mod, which is exact only on [-360, 720].',
                 tech='Kani proof harnesses over all f64',
                 ref='DESIGN.md §5 C32'),
 }
@@ -132,7 +132,7 @@ def main():
         }],
         'checks': checks,
         'not_applicable': [{'property_id': k, 'reason': v} for k, v in sorted(NA.items())],
-        'notes': 'See DESIGN.md. exit 2 = undecided (tool limit, lost anchor), never reported as a violation. known_findings.json lists recorded and repaired defects.',
+        'notes': 'See DESIGN.md (section 10 = as built). exit 2 = undecided (build/tool error, lost anchor, failed vacuity guard, nothing discharged), never reported as a violation; a single harness that hits the time/memory limit is printed as NOT-DECIDED, excluded from the obligation counts and does not change the exit code. known_findings.json lists recorded and repaired defects.',
     }
     json.dump(m, open(os.path.join(ROOT, 'MANIFEST.json'), 'w'), indent=1)
     print('MANIFEST.json written: %d checks, %d not applicable' % (len(checks), len(NA)))
